@@ -13,7 +13,7 @@ LEVEL = "proof"
 READY = True
 SYSTEMS = [c16_dqueue, c16_shcounter, c16_loadbalancer, c16_gcounter, c16_proxy, c16_shopcart, c16_shopnode, c16_nested, c16_replicatedkv] + c16_gotests.PROGRAMS
 # walks per system: quick, thorough
-BUDGET = {"dqueue": (10, 1200), "shcounter": (5, 400), "loadbalancer": (8, 1000), "gcounter": (7, 800), "proxy": (8, 800), "shopcart": (7, 600), "shopnode": (6, 500), "nestedcrdtimpl": (7, 700), "replicatedkv": (4, 100)}
+BUDGET = {"dqueue": (10, 1200), "shcounter": (5, 400), "loadbalancer": (8, 1000), "gcounter": (7, 800), "proxy": (8, 800), "shopcart": (7, 600), "shopnode": (7, 600), "nestedcrdtimpl": (7, 700), "replicatedkv": (4, 100)}
 BUDGET.update(c16_gotests.BUDGET)
 
 TRUSTED_BASE = [
@@ -222,7 +222,7 @@ MANIFEST = {
              "shopcart (complete for the instance the spec declares, ANodeBench + AWORSet): StrongConvergence, QueryOK, equal knowledge => equal query, add clocks monotone, "
              "remove maps stay Null, no ill-typed step. "
              "proxy (complete): ProxyOK under the perfect failure detector and NUM_SERVERS < 100, FAIL reported only if all servers stopped, FD accuracy; "
-             "assertion/type freedom incl. the client's resp.id = reqId (one-outstanding-request token invariant). nestedcrdtimpl: MonotonicState (no component of any replica state decreases in any step), view never decreases; StateSanity as written in the spec is refuted (it sums over SETS; known finding, witness replayed on the generated code) and the bound it intends (no replica shows more than the writes issued) is proved, with the handshake / write-accounting invariants and the Node's assertion freedom; and type safety (the with-chosen send target is always a resource id). shopcart ANode (the interactive archetype, whole AWORSet with removes, shared input queue; own model ShopNode.v): clocks live on NodeSet, an element never has both an add and a remove clock, the answer is exactly the elements with an add clock, Merge's assertions hold, type safety for inputs over ElemSet; monotonicity of the raw clocks is refuted once removes exist (it is an ANodeBench statement). replicatedkv (28 labels, typed model Rkv.v, tie): no assertion written in the spec fails (all four: msg.client \\in liveClients, firstPending.op, getResp.type, putResp.type), via message typing + 'no Get of c is queued or held at a replica that has disconnected c'; type errors oracle-only. The *.gotests programs (hello, IndexingLocals, NonDetExploration, bug2_124, PBFail4_bug125, bug_119, ProcedureSpaghetti, ExprTests) run under the same walks with the assertion / type-error / crash oracle and each program's expected values; models + theorems for IndexingLocals (type safe, final log and p) and NonDetExploration (AComplex's assertion fails EXACTLY when the with chose the same element all 20 times: refuted as the spec itself announces; known finding with witness). PBFail4 with >= 3 replicas fails its own `assert rep.from = idx` (acks out of order; known finding with witness; walks use <= 2 replicas). Live (deployment smoke) runs, oracle-only: the same generated archetypes over the REAL deployment resources their tests wire up, free-running goroutines in one process, a deadline on everything, every port taken from 127.0.0.1:0 — shcounter x 3-6 over real resources.NewTwoPC replicas (RPCReplicaHandle over loopback, and LocalReplicaHandle through the C11 hook): every node finishes, every replica's committed value is NUM_NODES, committed value and version never decrease in 2 ms samples, no archetype error; dqueue over TCP mailboxes + Input/OutputChan: every produced item is output exactly once, each consumer in production order; loadbalancer over TCP mailboxes + the real FileSystem: every client receives, in order, the content of the pages it requested and nothing more; proxy over TCP mailboxes + the real FailureDetector and Monitor (all servers up / none / one stopped mid-way): reply count, ids, from/to, a non-FAIL body names a server that was running when the request was sent, FAIL when none was started (FAIL while a server runs is only counted: the deployment's detector is timeout-based, not perfect). These runs tie the properties to the wiring code steplib bypasses; they establish that no violation was OBSERVED on the schedules the Go scheduler happened to produce (a handful per quick run) — no coverage claim, no atomicity or interleaving control, and what is not observable from outside (e.g. in-flight messages) is not judged. They found the twopc.go defect fixed by /repo 2512b762 (known_findings: fixed). Tie: the generated archetypes "
+             "assertion/type freedom incl. the client's resp.id = reqId (one-outstanding-request token invariant). nestedcrdtimpl: MonotonicState (no component of any replica state decreases in any step), view never decreases; StateSanity as written in the spec is refuted (it sums over SETS; known finding, witness replayed on the generated code) and the bound it intends (no replica shows more than the writes issued) is proved, with the handshake / write-accounting invariants and the Node's assertion freedom; and type safety (the with-chosen send target is always a resource id). shopcart ANode (the interactive archetype, whole AWORSet with removes, shared input queue; own model ShopNode.v): clocks live on NodeSet, an element never has both an add and a remove clock, the answer is exactly the elements with an add clock, Merge's assertions hold, type safety for inputs over ElemSet; monotonicity of the raw clocks is refuted once removes exist (it is an ANodeBench statement). replicatedkv (28 labels, typed model Rkv.v, tie): no assertion written in the spec fails (all four: msg.client \\in liveClients, firstPending.op, getResp.type, putResp.type), via message typing + 'no Get of c is queued or held at a replica that has disconnected c'; type errors oracle-only. The *.gotests programs (hello, IndexingLocals, NonDetExploration, bug2_124, PBFail4_bug125, bug_119, ProcedureSpaghetti, ExprTests) run under the same walks with the assertion / type-error / crash oracle and each program's expected values; models + theorems for IndexingLocals (type safe, final log and p) and NonDetExploration (AComplex's assertion fails EXACTLY when the with chose the same element all 20 times: refuted as the spec itself announces; known finding with witness). PBFail4 with >= 3 replicas fails its own `assert rep.from = idx` (acks out of order; known finding with witness; walks use <= 2 replicas). shopnode additionally keeps one REAL resources.AWORSet value per node in step with the spec-state crdt (same committed commands, same merges) and checks it against a reference add-wins observed-remove set and against 'what a replica reads is a function of the updates it incorporated'; this exposed two known findings on the pinned tree: shopcart.tla's AWORSet macro copies only the writer's own clock component where the deployed type copies the whole observed clock (the spec's set and the deployed set are different CRDTs; the shopcart theorems are about the spec's), and the deployed type's Merge drops the losing clock so that equal knowledge can read different values in a corner (owner C12). Live (deployment smoke) runs, oracle-only: the same generated archetypes over the REAL deployment resources their tests wire up, free-running goroutines in one process, a deadline on everything, every port taken from 127.0.0.1:0 — shcounter x 3-6 over real resources.NewTwoPC replicas (RPCReplicaHandle over loopback, and LocalReplicaHandle through the C11 hook): every node finishes, every replica's committed value is NUM_NODES, committed value and version never decrease in 2 ms samples, no archetype error; dqueue over TCP mailboxes + Input/OutputChan: every produced item is output exactly once, each consumer in production order; loadbalancer over TCP mailboxes + the real FileSystem: every client receives, in order, the content of the pages it requested and nothing more; proxy over TCP mailboxes + the real FailureDetector and Monitor (all servers up / none / one stopped mid-way): reply count, ids, from/to, a non-FAIL body names a server that was running when the request was sent, FAIL when none was started (FAIL while a server runs is only counted: the deployment's detector is timeout-based, not perfect). These runs tie the properties to the wiring code steplib bypasses; they establish that no violation was OBSERVED on the schedules the Go scheduler happened to produce (a handful per quick run) — no coverage claim, no atomicity or interleaving control, and what is not observable from outside (e.g. in-flight messages) is not judged. They found the twopc.go defect fixed by /repo 2512b762 (known_findings: fixed). Tie: the generated archetypes "
              "run under the real Run loop one attempt at a time over spec-state resources (the specs' mapping macros); each model runs the same schedule in Coq; every "
              "post-state and outcome compared; implementation-side oracles per system on the Go observations."),
     "level_note": ("Per system as stated in the text. Trusted: Coq kernel; hand-written models (differential tie: 81 quick / 7400 thorough "
